@@ -67,8 +67,8 @@ def behaviours_from_json(beh):
     out = {}
     for k, v in (beh or {}).items():
         d = dict(v)
-        for f in ("stdout", "stderr"):
-            if f in d:
+        for f in ("stdout", "stderr", "linger"):
+            if f in d and d[f] is not None:
                 d[f] = _b(d[f])
         if "files" in d:
             d["files"] = {p: _b(c) for p, c in d["files"].items()}
